@@ -84,6 +84,13 @@ class Tiny:
                 hi = self.ev(e.slice.upper) if e.slice.upper is not None else None
                 return b.slice(lo, hi)
             raise AnalysisError(f"tiny: subscript {ast.unparse(e)}")
+        if isinstance(e, ast.BinOp) and isinstance(e.op, (ast.Mod, ast.LShift, ast.RShift, ast.BitOr, ast.BitAnd, ast.BitXor, ast.FloorDiv, ast.Pow)):
+            l, r = self.ev(e.left), self.ev(e.right)
+            if isinstance(l, int) and isinstance(r, int):
+                import operator
+                return {ast.Mod: operator.mod, ast.LShift: operator.lshift, ast.RShift: operator.rshift, ast.BitOr: operator.or_, ast.BitAnd: operator.and_,
+                        ast.BitXor: operator.xor, ast.FloorDiv: operator.floordiv, ast.Pow: operator.pow}[type(e.op)](l, r)
+            raise AnalysisError(f"tiny: operator on {l!r}, {r!r}")
         if isinstance(e, ast.BinOp) and isinstance(e.op, (ast.Add, ast.Sub, ast.Mult)):
             l, r = self.ev(e.left), self.ev(e.right)
             if isinstance(l, Buf) and isinstance(r, Buf) and isinstance(e.op, ast.Add):
@@ -130,11 +137,21 @@ class Tiny:
                     recv = self.ev(e.func.value)
                 except AnalysisError:
                     recv = None
+                if isinstance(recv, int) and not isinstance(recv, bool) and e.func.attr == "to_bytes":
+                    return ("octets", recv)
+                if isinstance(recv, Buf) and len(recv) == 0 and e.func.attr == "join" and len(e.args) == 1:
+                    parts = self.ev(e.args[0])
+                    if isinstance(parts, list):
+                        return ("joined", parts)
                 if isinstance(recv, Sym) and e.func.attr in recv.methods:
                     args = [self.ev(a) for a in e.args]
                     kwargs = {k.arg: self.ev(k.value) for k in e.keywords if k.arg is not None}
                     self.trace.append((f"{recv.name}.{e.func.attr}", args, kwargs))
                     return recv.methods[e.func.attr](*args, **kwargs)
+            if f in ("range", "xrange") and 1 <= len(e.args) <= 3 and not e.keywords:
+                vals = [self.ev(a) for a in e.args]
+                if all(isinstance(v, int) for v in vals) and len(range(*vals)) <= 4096:
+                    return list(range(*vals))
             if f == "next" and len(e.args) == 1:
                 it = self.ev(e.args[0])
                 if hasattr(it, "__next__"):
@@ -258,10 +275,26 @@ class Tiny:
                         base.attrs[t.attr] = v
                         continue
                 self.env[norm.text(t)] = v
-            elif isinstance(st, ast.AugAssign) and isinstance(st.op, (ast.Add, ast.Sub)):
-                t = norm.text(st.target)
+            elif isinstance(st, ast.AugAssign):
+                cur = self.ev(st.target)
+                new = self.ev(ast.BinOp(left=ast.Constant(value=0), op=st.op, right=ast.Constant(value=0))) if False else None
                 v = self.ev(st.value)
-                self.env[t] = self.env[t] + v if isinstance(st.op, ast.Add) else self.env[t] - v
+                import operator
+                ops = {ast.Add: operator.add, ast.Sub: operator.sub, ast.BitOr: operator.or_, ast.BitAnd: operator.and_, ast.Mult: operator.mul,
+                       ast.LShift: operator.lshift, ast.RShift: operator.rshift, ast.BitXor: operator.xor}
+                if type(st.op) not in ops or isinstance(cur, Buf) or isinstance(v, Buf):
+                    raise AnalysisError(f"tiny: augmented assignment {ast.unparse(st)[:40]}")
+                val = ops[type(st.op)](cur, v)
+                tt = st.target
+                if isinstance(tt, ast.Attribute) and norm.text(tt) not in self.env:
+                    try:
+                        base = self.ev(tt.value)
+                    except AnalysisError:
+                        base = None
+                    if isinstance(base, Sym):
+                        base.attrs[tt.attr] = val
+                        continue
+                self.env[norm.text(tt)] = val
             elif isinstance(st, ast.If):
                 r = self._run(st.body if self.truth(self.ev(st.test)) else st.orelse, stop)
                 if r[0] != "fall":
